@@ -44,6 +44,9 @@ type acceptEngine struct {
 	// structUndecided: functions that report their outcome in a field of a struct
 	// result built in a shape fieldAtReturn does not follow
 	structUndecided map[*ssa.Function]bool
+	// requiring: the function Require is judging (all of its returns count, also
+	// for a position-valued function)
+	requiring *ssa.Function
 }
 
 func (c *Ctx) accept() *acceptEngine {
@@ -465,6 +468,12 @@ func (e *acceptEngine) observe(fn *ssa.Function, ce ir.CondEdge) (*ssa.Call, boo
 			}
 		}
 	}
+	// a search that answers with a position (-1 for "none") observed to have found one
+	if call := indexFound(cond, truth); call != nil {
+		if callee := ir.Callee(call); callee != nil && e.c.P.InLib(callee) && indexVerdict(callee) {
+			return call, false
+		}
+	}
 	// error-only result observed nil
 	if v, isNil := errIsNil(cond, truth); v != nil {
 		if !isNil {
@@ -485,6 +494,73 @@ func (e *acceptEngine) observe(fn *ssa.Function, ce ir.CondEdge) (*ssa.Call, boo
 		}
 	}
 	return nil, false
+}
+
+// indexVerdict: fn answers a search with a position: its only result is an
+// integer and some return hands back the constant -1 ("none").
+func indexVerdict(fn *ssa.Function) bool { return indexVerdictN(fn, 0) }
+
+func indexVerdictN(fn *ssa.Function, depth int) bool {
+	if fn == nil || fn.Blocks == nil || depth > 3 {
+		return false
+	}
+	rs := fn.Signature.Results()
+	if rs.Len() != 1 {
+		return false
+	}
+	if b, ok := rs.At(0).Type().Underlying().(*types.Basic); !ok || b.Info()&types.IsInteger == 0 {
+		return false
+	}
+	for _, r := range ir.Returns(fn) {
+		if noneIndex(fn, r) {
+			return true
+		}
+		// ... or passes on the answer of such a search
+		if len(r.Results) == 1 {
+			if call, isCall := ir.StripConv(effectiveResult(fn, r, 0)).(*ssa.Call); isCall {
+				if callee := ir.Callee(call); callee != nil && callee != fn && indexVerdictN(callee, depth+1) {
+					return true
+				}
+			}
+		}
+	}
+	return false
+}
+
+// noneIndex: return r of the position-valued fn hands back the constant -1.
+func noneIndex(fn *ssa.Function, r *ssa.Return) bool {
+	if len(r.Results) != 1 {
+		return false
+	}
+	k, isK := ir.ConstInt(ir.StripConv(effectiveResult(fn, r, 0)))
+	return isK && k == -1
+}
+
+// indexFound decodes cond, with the given truth, as "the position a call
+// returned is not the 'none' value -1": i >= 0, i > -1, i != -1 and their
+// negated / mirrored spellings. Returns the call.
+func indexFound(cond ssa.Value, truth bool) *ssa.Call {
+	bo, isB := cond.(*ssa.BinOp)
+	if !isB {
+		return nil
+	}
+	x, y, op := ir.StripConv(bo.X), ir.StripConv(bo.Y), bo.Op
+	if _, isK := ir.ConstInt(x); isK {
+		x, y, op = y, x, flip(op)
+	}
+	k, isK := ir.ConstInt(y)
+	call, isCall := spilledValue(x).(*ssa.Call)
+	if !isK || !isCall {
+		return nil
+	}
+	if !truth {
+		op = negate(op)
+	}
+	switch {
+	case op == token.GEQ && k == 0, op == token.GTR && k == -1, op == token.NEQ && k == -1:
+		return call
+	}
+	return nil
 }
 
 // spilledValue: v is the load of a local variable that lives in memory only
@@ -922,7 +998,7 @@ func (e *acceptEngine) holdsAtV(fn *ssa.Function, r *ssa.Return, f *fact, verdic
 	// tail delegation: return g(...)
 	if len(rres) > 0 {
 		if call := callOf(rres[0]); call != nil {
-			if callee := ir.Callee(call); callee != nil && e.c.P.InLib(callee) && certArgsOK(fn, call) && e.establishes(callee, f) {
+			if callee := ir.Callee(call); callee != nil && e.c.P.InLib(callee) && certArgsOK(fn, call) && !(fn == e.requiring && indexVerdict(callee)) && e.establishes(callee, f) {
 				return true, ""
 			}
 		}
@@ -1077,6 +1153,17 @@ func (e *acceptEngine) establishesMode(fn *ssa.Function, f *fact, errMode bool) 
 	e.memo[key] = 3
 	ok := true
 	acc := acceptingReturnsMode(fn, errMode)
+	if indexVerdict(fn) {
+		// a position-valued search is only ever observed through "not -1" (observe):
+		// the returns that hand back -1 are its rejecting outcome
+		var found []*ssa.Return
+		for _, r := range acc {
+			if !noneIndex(fn, r) {
+				found = append(found, r)
+			}
+		}
+		acc = found
+	}
 	if len(acc) == 0 {
 		ok = false // a function that never accepts establishes nothing useful
 	}
@@ -1096,6 +1183,8 @@ func (e *acceptEngine) establishesMode(fn *ssa.Function, f *fact, errMode bool) 
 
 // Require reports, for each accepting return of fn and each fact, whether it holds.
 func (e *acceptEngine) Require(rule string, fn *ssa.Function, facts []*fact) {
+	defer func(prev *ssa.Function) { e.requiring = prev }(e.requiring)
+	e.requiring = fn
 	acc := acceptingReturns(fn)
 	if len(acc) == 0 {
 		// the verdict may be given in a deferred function that clears the named error result
@@ -1762,7 +1851,19 @@ var factDigestAlg = &fact{id: "digest-algorithm", what: "the digest algorithm na
 	},
 	direct: func(c *Ctx, fn *ssa.Function, ce ir.CondEdge) bool {
 		call, ok := ce.Cond.(*ssa.Call)
-		if !ok || !ce.Truth || ir.CallID(call) != "encoding/asn1.ObjectIdentifier.Equal" {
+		if !ok || !ce.Truth || len(call.Call.Args) != 2 {
+			return false
+		}
+		switch ir.CallID(call) {
+		case "encoding/asn1.ObjectIdentifier.Equal":
+		case "slices.Equal", "reflect.DeepEqual":
+			// the same element-wise comparison of two identifiers, spelled with the library function
+			for _, a := range call.Call.Args {
+				if ir.NamedTypeID(ir.StripIface(a).Type()) != "encoding/asn1.ObjectIdentifier" {
+					return false
+				}
+			}
+		default:
 			return false
 		}
 		sa, sb := c.sliceOf(call.Call.Args[0]), c.sliceOf(call.Call.Args[1])
